@@ -20,7 +20,11 @@ MANIFEST = {
              "in round 1 (F1, F2, u32 wrap and saturation of the window) are repaired in /repo (db069f3a, a59dfe5a, f9ac4dbc); their oracle "
              "keys stay armed. Tied to the real code by level-C differential execution of every instruction through marginfi::entry in the "
              "sim runtime with a byte-exact, field-by-field diff of the bank (table tiling all 1856 bytes incl. paddings), group and "
-             "metadata accounts and a whole-store diff of every other account, and by whole deleverage transactions."),
+             "metadata accounts and a whole-store diff of every other account, and by whole deleverage transactions. Who HOLDS a role "
+             "(model/GroupRoles.v): a successful marginfi_group_configure was signed by the current admin and stores each requested key under "
+             "the role of the same name; no history without the admin's signature changes the role table; every holder of a role at the "
+             "end of any history was appointed to exactly that role by the admin of that moment - corresponded with the real configure "
+             "(distinct keys per role, arbitrary signers) and with six delegated instructions probed through the entry point."),
     "design_ref": "DESIGN.md §7 C12 (§8 F1 F2 repaired)",
     "technique": "Coq proofs (frame equations via field erasers, Z.land/Z.lor/Z.ldiff bit lemmas by Z.bits_inj', induction over withdrawal lists) + model/implementation correspondence at level C (real handlers, byte-level field diff)",
 }
